@@ -44,6 +44,15 @@ def run(R):
         if norm_out(rd.stdout) != norm_out(rr.stdout) and rr.exit != 2:
             R.oracle_fail("--dry-run reports different per-hunk verdicts from the real run", data)
     R.dist["dry-run scenarios"] = dist
+    # the model is tied to the program on the same scenarios: outcome (T8) and trace of mutating operations (T9)
+    import ties
+    sub = cs[:120 if quick else 1500]
+    ties.t8(R, "T8-driver", [dict(c, argv=[b"--dry-run"] + c["argv"]) for c in sub] + sub[:60 if quick else 600])
+    outs = ties.t9(R, "T9-trace", [dict(c, argv=[b"--dry-run"] + c["argv"], uid=0) for c in sub[:80 if quick else 800]])
+    for c, r, m, ops in outs:
+        bad = [o for o in ops if not o.startswith("tmp-")]
+        if bad:
+            R.oracle_fail(f"--dry-run performed a mutating system call: {bad[0][:80]}", rich.describe(c, r))
 
 
 RULE = ("rich scenarios (exact / offset / fuzz / rejects; modify, create in new directories, delete, git rename/copy/mode change; read-only targets; -b, -o, "
